@@ -9,11 +9,11 @@ reg("C01",
     name="C01_rank", src="harness/C01_rank.cpp",
     anchor_files=_ANCH,
     quick=dict(defs=dict(NNODES=4, MAXSRC=2), symx=dict(shards=16, **{"max-wall": 900})),
-    thorough=dict(defs=dict(NNODES=5, MAXSRC=3), symx=dict(shards=16, **{"max-wall": 3000, "shard-depth": 8})),
+    thorough=dict(defs=dict(NNODES=5, MAXSRC=2), symx=dict(shards=16, **{"max-wall": 3000, "shard-depth": 8})),
     reach=["end", "cyclic_rejected", "rank_dependency_reorders_statements", "nested_child_checked", "feedback_compiled", "push_source_declared_last",
            "rank_free_pair_compiled", "cyclic_rank_free_pair", "ref_pass_through", "tsl_structural_source"],
     bounds=_PROG + "; rank dependencies between ANY two statements (also self, also closing a cycle with data edges or with each other), additionally: two rank "
-           "dependencies / a push source declared last / a pair node whose second input is declared rank_dependency=false while its source is rank-constrained after it "
+           "dependencies (all ordered pairs of pairs for NNODES<=4, chains a2->a1->b1 for NNODES=5) / a push source declared last / a pair node whose second input is declared rank_dependency=false while its source is rank-constrained after it "
            "(the shared-output relay pattern of graph_wiring.h). No execution: the compiled GraphBuilder (and the nested child's) is inspected",
     outside="more than NNODES statements; more than one extra per program (except the two rank dependencies); TSB/TSD structural sources; service/adaptor rank contracts "
             "(apply_service_rank_dependencies, same-cycle pair validation beyond the plain rank dependency); programs only expressible through the operator layer; "
@@ -27,7 +27,7 @@ reg("C01",
     name="C01_eval", src="harness/C01_eval.cpp",
     anchor_files=_ANCH,
     quick=dict(defs=dict(NNODES=4, MAXSRC=2, NCYC=2), symx=dict(shards=16, **{"max-wall": 900})),
-    thorough=dict(defs=dict(NNODES=5, MAXSRC=2, NCYC=3), symx=dict(shards=16, **{"max-wall": 3000, "shard-depth": 8})),
+    thorough=dict(defs=dict(NNODES=4, MAXSRC=2, NCYC=3), symx=dict(shards=16, **{"max-wall": 3000, "shard-depth": 8})),
     reach=["end", "fan_in_with_unequal_depth", "both_inputs_ticked_in_one_cycle", "rank_dependency_reorders_statements", "nested_child_evaluated",
            "feedback_loop_ran", "read_through_reference_after_first_cycle", "tsl_structural_source"],
     bounds=_PROG + " (only acyclic requests; rank dependencies only in the direction that contradicts statement order); run by the simulation executor for NCYC source "
@@ -36,6 +36,18 @@ reg("C01",
             "whether a node runs at all when it should (C03) and at which times cycles occur (C02)",
     assumptions=["the producer relation used by the order oracle is the harness's own description of the program it wired (who reads whom), not the compiled edge list",
                  "the nested extra is wired through hk/hk_nested.h, a mirror of subgraph_wiring.h nested_<G> (whose template body crashes clang 14)"],
+    )
+
+reg("C01",
+    name="C01_eval_n5", src="harness/C01_eval.cpp", tiers=("thorough",),
+    anchor_files=_ANCH,
+    thorough=dict(defs=dict(NNODES=5, MAXSRC=1, NCYC=3), symx=dict(shards=16, **{"max-wall": 3000, "shard-depth": 8})),
+    reach=["end", "fan_in_with_unequal_depth", "both_inputs_ticked_in_one_cycle", "rank_dependency_reorders_statements", "nested_child_evaluated",
+           "feedback_loop_ran", "read_through_reference_after_first_cycle", "tsl_structural_source"],
+    bounds=_PROG + " (only acyclic requests; rank dependencies only in the direction that contradicts statement order) with 5 statements and a single source; "
+           "run by the simulation executor for 3 source cycles (+2 trailing), all tick patterns, payloads symbolic in [-1000,1000]",
+    outside="as C01_eval; additionally: coincident ticks of independent sources at 5 statements",
+    assumptions=["same harness source as C01_eval with larger program size (thorough tier only)"],
     )
 
 META = dict(
